@@ -471,6 +471,40 @@ pub fn case(ch: &mut Choices, ctx: &CaseCtx) -> CaseOut {
                     if out.fail.is_some() {
                         break;
                     }
+                    // stepping back does not refill the budget: back and forth executes nothing more
+                    if recording && drive == 2 {
+                        let mut c3 = xs.clone();
+                        for _ in 0..3 {
+                            // (a back-step that itself fails - the log reaches back into build-time code - ends the probe)
+                            if !matches!(guard(|| c3.rnext()), Ok(Ok(()))) {
+                                break;
+                            }
+                            let r = guard(|| c3.next());
+                            if let Ok(r) = &r {
+                                if c3.is_running() && xs::kind_res(r) != Kind::InsnLimit {
+                                    fail(&mut out, dname, "instructions executed after the limit was reached and not raised", format!("rnext() then next() gave {} (limit {})", xs::render_res(r), limit));
+                                    break;
+                                }
+                            }
+                        }
+                        if out.fail.is_some() {
+                            break;
+                        }
+                    }
+                    // a new program submitted after the limit is raised starts from what the stopped one left: the rest
+                    // of the stopped program is abandoned, not run
+                    if drive >= 1 && !has_meta {
+                        let mut c4 = xs.clone();
+                        let before = xs::render_stack(&c4);
+                        c4.set_insn_limit(Some(100_000)).unwrap();
+                        if let Ok(r) = guard(|| c4.compile("777").and_then(|_| c4.run())) {
+                            let want = if before.is_empty() { "777".to_string() } else { format!("{} | 777", before) };
+                            if r.is_err() || xs::render_stack(&c4) != want {
+                                fail(&mut out, dname, "a program submitted after the limit was raised resumed the stopped one", format!("`777` compiled and run: {} stack [{}], expected [{}]", xs::render_res(&r), xs::render_stack(&c4), want));
+                                break;
+                            }
+                        }
+                    }
                 }
                 // ---- recoverability ----------------------------------------------------------
                 // (a stack / heap refusal in the middle of a native word may leave that word half done; when the refused
